@@ -97,8 +97,14 @@ extern "C" fn on_fatal_signal(sig: i32) {
 fn install_handlers() {
     #[cfg(not(miri))]
     unsafe {
+        // SA_ONSTACK: std gives the main thread an alternate signal stack, so that a stack
+        // overflow (e.g. unbounded recursion in a mutated insert) can still be reported
         for &s in &[libc::SIGABRT, libc::SIGSEGV, libc::SIGBUS, libc::SIGILL, libc::SIGFPE, libc::SIGALRM] {
-            libc::signal(s, on_fatal_signal as usize);
+            let mut sa: libc::sigaction = std::mem::zeroed();
+            sa.sa_sigaction = on_fatal_signal as usize;
+            sa.sa_flags = libc::SA_ONSTACK;
+            libc::sigemptyset(&mut sa.sa_mask);
+            libc::sigaction(s, &sa, std::ptr::null_mut());
         }
     }
     std::panic::set_hook(Box::new(|_| {}));
@@ -139,6 +145,10 @@ pub fn generate(prop: Prop, seed: u64, run: u64, thorough: bool) -> RunSpec {
     }
     if prop == Prop::C10 {
         spec.mode = Some("enum-args".to_string());
+    }
+    if prop == Prop::C08 && spec.mode.is_none() && rng.chance(1, 3) && !spec.ops.is_empty() {
+        let at = rng.below(spec.ops.len() as u64) as usize;
+        spec.faults.push(Fault { at, nth: 1 + rng.below(9) });
     }
     if prop == Prop::C17 && rng.chance(1, 2) && !spec.ops.is_empty() {
         // fault schedule: one or two panics at early callbacks of random steps
@@ -191,6 +201,15 @@ fn cmd_run(args: &[String]) -> i32 {
     let want_hash = prop == Prop::C17;
     let mut hash_file = arg(args, "--hash-out").map(|p| std::fs::OpenOptions::new().create(true).append(true).open(p).expect("open hash file"));
 
+    // the index of the run being executed is also kept in a side file, for the case that the
+    // process dies in a way no handler can report
+    let progress_fd: i32 = match out_path.as_ref() {
+        Some(p) => {
+            let c = std::ffi::CString::new(format!("{}.progress", p)).unwrap();
+            unsafe { libc::open(c.as_ptr(), libc::O_CREAT | libc::O_WRONLY | libc::O_TRUNC, 0o644) }
+        }
+        None => -1,
+    };
     let mut i = from + offset;
     while i < from + count {
         if t0.elapsed().as_secs() >= max_secs {
@@ -198,6 +217,12 @@ fn cmd_run(args: &[String]) -> i32 {
             break;
         }
         CURRENT_RUN.store(i, Ordering::Relaxed);
+        if progress_fd >= 0 {
+            let b = i.to_le_bytes();
+            unsafe {
+                libc::pwrite(progress_fd, b.as_ptr() as *const _, 8, 0);
+            }
+        }
         #[cfg(not(miri))]
         unsafe {
             libc::alarm(hang_secs);
